@@ -93,4 +93,15 @@ def _step_hints(cx, k, v):
     ]
 
 
-pts.loop(0, _inv, hints=[_step_hints])
+def _sound_hints(cx, k, v):
+    """for the clause `sound(ranges)`: the old tokens are unchanged and were sound; a new last token (if any) denotes given ports only"""
+    old, new = v.head.ranges, v.ranges
+    t, x = z3.Ints("t!sh x!sh")
+    last = new.a[old.n]
+    return [z3.ForAll([t], z3.Implies(z3.And(0 <= t, t < old.n), new.a[t] == old.a[t])),
+            z3.ForAll([t, x], z3.Implies(z3.And(0 <= t, t < old.n, LO(new.a[t]) <= x, x <= HI(new.a[t])), INS(x))),
+            z3.Implies(new.n == old.n + 1, z3.ForAll([x], z3.Implies(z3.And(LO(last) <= x, x <= HI(last)), INS(x))))]
+
+
+_sound_hints.for_clauses = (1,)
+pts.loop(0, _inv, hints=[_step_hints, _sound_hints])
